@@ -1,1 +1,573 @@
-fn main(){}
+//! Engine C: loom exploration of the real searcher.rs (included by path from /repo, with
+//! its synchronisation imports switched to the shim in verif_sync.rs).
+//!
+//! usage: loomchk <harness> [--pb N|none] [--fen F] [--depth D] [--workers W] [--tables T]
+//!                [--buckets B] [--script S] [--seed S] [--max-secs S] [--variant V]
+//! Prints one JSON object on the last line of stdout.
+
+#![feature(generic_const_exprs)]
+#![feature(slice_split_once)]
+#![allow(incomplete_features)]
+#![allow(dead_code)]
+
+#[path = "/repo/weechess-engine/src/eval/mod.rs"]
+pub mod eval;
+#[path = "/repo/weechess-engine/src/searcher.rs"]
+pub mod searcher;
+pub mod verif_sync;
+
+#[path = "../../posmc/src/bridge.rs"]
+mod bridge;
+
+use bridge::*;
+use oracle::tb::{mate_distance, Tablebase, Val};
+use oracle::*;
+use searcher::verif::{Plan, VerifEntry, VerifTable};
+use searcher::{ControlEvent, SearchArtifact, Searcher, StatusEvent};
+use serde_json::{json, Value};
+use std::collections::{BTreeMap, BTreeSet};
+use std::sync::atomic::{AtomicU64, Ordering as O};
+use std::sync::{Arc as StdArc, Mutex as StdMutex};
+use weechess_core::{Move, PieceIndex};
+
+struct Args {
+    harness: String,
+    pb: Option<usize>,
+    fen: String,
+    fen2: Option<String>,
+    depth: Option<usize>,
+    workers: usize,
+    tables: usize,
+    buckets: usize,
+    script: String,
+    seed: u64,
+    max_secs: u64,
+    variant: usize,
+}
+
+fn parse_args() -> Args {
+    let a: Vec<String> = std::env::args().collect();
+    let mut r = Args {
+        harness: a.get(1).cloned().unwrap_or_default(),
+        pb: Some(2),
+        fen: "8/8/8/4k3/8/8/3P4/4K3 w - - 0 1".into(),
+        fen2: None,
+        depth: Some(1),
+        workers: 2,
+        tables: 1,
+        buckets: 64,
+        script: "join".into(),
+        seed: 0,
+        max_secs: 600,
+        variant: 0,
+    };
+    let mut i = 2;
+    while i + 1 < a.len() {
+        let v = a[i + 1].clone();
+        match a[i].as_str() {
+            "--pb" => r.pb = if v == "none" { None } else { Some(v.parse().unwrap()) },
+            "--fen" => r.fen = v,
+            "--fen2" => r.fen2 = Some(v),
+            "--depth" => r.depth = if v == "none" { None } else { Some(v.parse().unwrap()) },
+            "--workers" => r.workers = v.parse().unwrap(),
+            "--tables" => r.tables = v.parse().unwrap(),
+            "--buckets" => r.buckets = v.parse().unwrap(),
+            "--script" => r.script = v,
+            "--seed" => r.seed = v.parse().unwrap(),
+            "--max-secs" => r.max_secs = v.parse().unwrap(),
+            "--variant" => r.variant = v.parse().unwrap(),
+            x => panic!("unknown argument {}", x),
+        }
+        i += 2;
+    }
+    r
+}
+
+struct Shared {
+    executions: AtomicU64,
+    outcomes: StdMutex<BTreeMap<String, u64>>,
+    violations: StdMutex<Vec<Value>>,
+}
+
+impl Shared {
+    fn outcome(&self, s: String) {
+        *self.outcomes.lock().unwrap().entry(s).or_insert(0) += 1;
+    }
+    fn violation(&self, v: Value) {
+        let mut g = self.violations.lock().unwrap();
+        if g.len() < 20 {
+            g.push(v);
+        }
+    }
+}
+
+fn explore<F: Fn(&Shared) + Send + Sync + 'static>(args: &Args, body: F) -> Value {
+    // lazily built attack tables are forced before the model, they are read-only afterwards
+    let _ = weechess_core::MoveGenerator::compute_legal_moves(&weechess_core::State::default());
+    let shared = StdArc::new(Shared {
+        executions: AtomicU64::new(0),
+        outcomes: StdMutex::new(BTreeMap::new()),
+        violations: StdMutex::new(Vec::new()),
+    });
+    let mut b = loom::model::Builder::new();
+    b.preemption_bound = args.pb;
+    b.max_branches = 1_000_000;
+    b.checkpoint_interval = 500;
+    b.max_duration = Some(std::time::Duration::from_secs(args.max_secs));
+    if let Ok(f) = std::env::var("LOOMCHK_CHECKPOINT") {
+        b.checkpoint_file = Some(f.into());
+    }
+    let start = std::time::Instant::now();
+    let sh = shared.clone();
+    let body = StdArc::new(body);
+    b.check(move || {
+        let sh = sh.clone();
+        let body = body.clone();
+        // the model's own coroutine has a small stack: run the body on a big-stack loom thread
+        loom::thread::Builder::new()
+            .stack_size(verif_sync::STACK)
+            .spawn(move || {
+                sh.executions.fetch_add(1, O::SeqCst);
+                body(&sh);
+            })
+            .unwrap()
+            .join()
+            .unwrap();
+    });
+    let elapsed = start.elapsed().as_secs_f64();
+    let completed = elapsed < args.max_secs as f64;
+    let outcomes = shared.outcomes.lock().unwrap().clone();
+    json!({
+        "harness": args.harness,
+        "preemption_bound": args.pb,
+        "executions": shared.executions.load(O::SeqCst),
+        "distinct_outcomes": outcomes.len(),
+        "outcomes": outcomes.iter().take(12).map(|(k, v)| json!({"outcome": k, "schedules": v})).collect::<Vec<_>>(),
+        "violations": *shared.violations.lock().unwrap(),
+        "completed": completed,
+        "wall_s": elapsed,
+    })
+}
+
+fn lan_line(line: &[Move]) -> Vec<String> {
+    line.iter().map(|m| mv_of(m).lan()).collect()
+}
+
+fn line_error(p: &Pos, line: &[Move]) -> Option<String> {
+    if line.is_empty() {
+        return Some("empty line".into());
+    }
+    let mut cur = p.clone();
+    for (i, m) in line.iter().enumerate() {
+        let mv = mv_of(m);
+        match cur.legal().into_iter().find(|(lm, _)| *lm == mv) {
+            Some((_, n)) => cur = n,
+            None => return Some(format!("move {} ({}) not legal in {}", i + 1, mv.lan(), cur.fen())),
+        }
+    }
+    None
+}
+
+/// One synchronous search inside the model; returns the BestMove events.
+fn search(p: &Pos, seed: u64, depth: Option<usize>, workers: usize, artifact: SearchArtifact, plan: Option<StdArc<Plan>>) -> (Vec<(Vec<Move>, i32)>, SearchArtifact) {
+    let mut bests = Vec::new();
+    let a = Searcher::verif_analyze_sync(to_state(p), &eval::Evaluator::default(), seed, depth, Some(artifact), Some(workers), plan, &mut |e| {
+        if let StatusEvent::BestMove { line, evaluation } = e {
+            bests.push((line, evaluation.into()));
+        }
+    });
+    (bests, a)
+}
+
+// ---------------------------------------------------------------- harness: workers_lines (C03)
+
+fn h_workers_lines(args: &Args) -> Value {
+    let p = Pos::from_fen(&args.fen).expect("bad fen");
+    let p2 = args.fen2.as_ref().map(|f| Pos::from_fen(f).expect("bad fen2"));
+    let (depth, workers, seed, tables, buckets) = (args.depth, args.workers, args.seed, args.tables, args.buckets);
+    let fen = args.fen.clone();
+    explore(args, move |sh| {
+        let artifact = SearchArtifact::verif_new(seed, tables, buckets);
+        // with a second position the first search only produces the history (one worker:
+        // loom allows five threads per execution)
+        let (bests, artifact) = search(&p, seed, depth, if p2.is_some() { 1 } else { workers }, artifact, None);
+        let mut out = String::new();
+        for (line, eval) in &bests {
+            if let Some(e) = line_error(&p, line) {
+                sh.violation(json!({"kind": "illegal-line", "fen": fen, "line": lan_line(line), "error": e}));
+            }
+            out.push_str(&format!("[{}]{};", lan_line(line).join(" "), eval));
+        }
+        if bests.is_empty() && p.has_legal_move() {
+            sh.violation(json!({"kind": "no-report", "fen": fen}));
+        }
+        let (entries, occupied, cap) = artifact.verif_table_stats();
+        if entries != occupied || entries > cap {
+            sh.violation(json!({"kind": "table-count-drift", "entries": entries, "occupied": occupied, "capacity": cap}));
+        }
+        // optionally a second position searched back-to-back on the same artifact
+        if let Some(p2) = &p2 {
+            let (b2, _) = search(p2, seed + 1, depth, workers, artifact, None);
+            for (line, eval) in &b2 {
+                if let Some(e) = line_error(p2, line) {
+                    sh.violation(json!({"kind": "illegal-line-after-history", "fen": p2.fen(), "line": lan_line(line), "error": e, "history": [fen]}));
+                }
+                out.push_str(&format!("2[{}]{};", lan_line(line).join(" "), eval));
+            }
+            if b2.is_empty() && p2.has_legal_move() {
+                sh.violation(json!({"kind": "no-report", "fen": p2.fen()}));
+            }
+        }
+        sh.outcome(out);
+    })
+}
+
+// ---------------------------------------------------------------- harness: workers_mate (C06)
+
+fn h_workers_mate(args: &Args) -> Value {
+    let p = Pos::from_fen(&args.fen).expect("bad fen");
+    let tb = StdArc::new(Tablebase::build(8));
+    let root_val = tb.probe(&p);
+    let (depth, workers, seed, tables, buckets) = (args.depth, args.workers, args.seed, args.tables, args.buckets);
+    let fen = args.fen.clone();
+    let need_mate = match (root_val, depth) {
+        (Some(Val::Win(n)), Some(d)) => (n as usize) <= d,
+        _ => false,
+    };
+    let r = explore(args, move |sh| {
+        let artifact = SearchArtifact::verif_new(seed, tables, buckets);
+        let (bests, _) = search(&p, seed, depth, workers, artifact, None);
+        let mut out = String::new();
+        for (line, eval) in &bests {
+            if let Some(e) = line_error(&p, line) {
+                sh.violation(json!({"kind": "illegal-line", "fen": fen, "line": lan_line(line), "error": e}));
+                continue;
+            }
+            if *eval >= 10_000 {
+                let mv = mv_of(&line[0]);
+                let succ = p.legal().into_iter().find(|(m, _)| *m == mv).unwrap().1;
+                let ok = matches!(root_val, Some(Val::Win(_))) && matches!(tb.probe(&succ), Some(Val::Loss(_)));
+                if !ok {
+                    sh.violation(json!({"kind": "false-mate-claim", "fen": fen, "line": lan_line(line), "evaluation": eval}));
+                }
+            }
+            out.push_str(&format!("[{}]{};", lan_line(line).join(" "), eval));
+        }
+        match bests.last() {
+            Some((line, eval)) => {
+                if need_mate && *eval < 10_000 {
+                    sh.violation(json!({"kind": "forced-mate-missed", "fen": fen, "line": lan_line(line), "evaluation": eval, "tablebase": format!("{:?}", root_val)}));
+                }
+            }
+            None => sh.violation(json!({"kind": "no-report", "fen": fen})),
+        }
+        sh.outcome(out);
+    });
+    let mut r = r;
+    r["tablebase_root"] = json!(format!("{:?}", root_val));
+    r["mate_required"] = json!(need_mate);
+    r
+}
+
+// ---------------------------------------------------------------- harness: workers_history (C17)
+
+fn h_workers_history(args: &Args) -> Value {
+    let p = Pos::from_fen(&args.fen).expect("bad fen");
+    let tb = StdArc::new(Tablebase::build(8));
+    let legal = p.legal();
+    let winners: Vec<(Mv, Pos)> = legal.iter().filter(|(_, n)| matches!(tb.probe(n), Some(Val::Loss(_)))).cloned().collect();
+    assert!(winners.len() >= 2, "position has fewer than two mate-preserving moves");
+    let (rec_mv, rec_pos) = winners[args.variant % winners.len()].clone();
+    let rec_key = rec_pos.key();
+    let root_key = p.key();
+    let drawn = move |q: &Pos| {
+        let k = q.key();
+        k == rec_key || k == root_key
+    };
+    let n2 = mate_distance(&p, 5, &drawn).expect("no mate left within 5 plies");
+    let depth = args.depth.unwrap_or(n2 as usize).max(n2 as usize);
+    let (workers, seed, tables, buckets) = (args.workers, args.seed, args.tables, args.buckets);
+    let fen = args.fen.clone();
+    let rec_fen = rec_pos.fen();
+    let rec_fen2 = rec_fen.clone();
+    let mut r = explore(args, move |sh| {
+        let mut artifact = SearchArtifact::verif_new(seed, tables, buckets);
+        artifact.verif_record_history(&to_state(&rec_pos));
+        let (bests, _) = search(&p, seed, Some(depth), workers, artifact, None);
+        let mut out = String::new();
+        for (line, eval) in &bests {
+            if let Some(e) = line_error(&p, line) {
+                sh.violation(json!({"kind": "illegal-line", "fen": fen, "line": lan_line(line), "error": e}));
+            }
+            out.push_str(&format!("[{}]{};", lan_line(line).join(" "), eval));
+        }
+        match bests.last() {
+            Some((line, eval)) => {
+                if *eval < 10_000 {
+                    sh.violation(json!({"kind": "repetition-avoiding-mate-missed", "fen": fen, "recorded": rec_fen, "line": lan_line(line), "evaluation": eval, "depth": depth}));
+                } else if mv_of(&line[0]) == rec_mv {
+                    sh.violation(json!({"kind": "repeating-move-chosen", "fen": fen, "recorded": rec_fen, "line": lan_line(line)}));
+                }
+            }
+            None => sh.violation(json!({"kind": "no-report", "fen": fen})),
+        }
+        sh.outcome(out);
+    });
+    r["recorded"] = json!(rec_fen2);
+    r["depth"] = json!(depth);
+    r["mate_distance_with_recorded_drawn"] = json!(n2);
+    r
+}
+
+// ---------------------------------------------------------------- harness: analyze_protocol (C04) / analyze_deterministic (C19)
+
+fn h_analyze_protocol(args: &Args, deterministic: bool) -> Value {
+    let p = Pos::from_fen(&args.fen).expect("bad fen");
+    let (depth, seed, tables, buckets) = (args.depth, args.seed, args.tables, args.buckets);
+    let script = args.script.clone();
+    let fen = args.fen.clone();
+    // The stop flag is polled at every node so that a Stop can land inside an iteration.
+    // Without a depth limit the search is additionally interrupted by the hook after a few
+    // nodes (inside the second iteration): loom allows five threads per execution, and the
+    // public entry point starts many workers from the fourth iteration on.
+    let node_limit = if depth.is_none() { 30 } else { 0 };
+    let has_move = p.has_legal_move();
+    let first_digest: StdArc<StdMutex<Option<String>>> = StdArc::new(StdMutex::new(None));
+    explore(args, move |sh| {
+        searcher::verif::set_global_plan(Some(Plan::new(0, 1, node_limit)));
+        let artifact = SearchArtifact::verif_new(seed, tables, buckets);
+        let (handle, tx, rx) = Searcher::new().analyze(to_state(&p), seed, eval::Evaluator::default(), depth, Some(artifact));
+        let mut events: Vec<String> = Vec::new();
+        let mut drain = |rx: &verif_sync::mpsc::Receiver<StatusEvent>, events: &mut Vec<String>| {
+            while let Ok(e) = rx.recv() {
+                match e {
+                    StatusEvent::BestMove { line, evaluation } => {
+                        if let Some(err) = line_error(&p, &line) {
+                            sh.violation(json!({"kind": "illegal-line", "fen": fen, "line": lan_line(&line), "error": err}));
+                        }
+                        events.push(format!("B[{}]{}", lan_line(&line).join(" "), i32::from(evaluation)));
+                    }
+                    StatusEvent::Progress { depth, nodes_searched, .. } => events.push(format!("P{}:{}", depth, nodes_searched)),
+                    StatusEvent::Warning { .. } => events.push("W".into()),
+                }
+            }
+        };
+        let joined;
+        match script.as_str() {
+            // depth-limited: finishes by itself while the caller still holds the sender
+            "join" => {
+                drain(&rx, &mut events);
+                joined = handle.join().is_ok();
+                drop(tx);
+            }
+            "stop-join" => {
+                let _ = tx.send(ControlEvent::Stop);
+                joined = handle.join().is_ok();
+                drain(&rx, &mut events);
+                drop(tx);
+            }
+            "stop-twice" => {
+                let _ = tx.send(ControlEvent::Stop);
+                let _ = tx.send(ControlEvent::Stop);
+                joined = handle.join().is_ok();
+                drain(&rx, &mut events);
+                drop(tx);
+            }
+            "drop-receiver-stop" => {
+                drop(rx);
+                let _ = tx.send(ControlEvent::Stop);
+                joined = handle.join().is_ok();
+                drop(tx);
+            }
+            "drop-sender" => {
+                drop(tx);
+                joined = handle.join().is_ok();
+                drain(&rx, &mut events);
+            }
+            "stop-after-completion" => {
+                drain(&rx, &mut events);
+                joined = handle.join().is_ok();
+                let _ = tx.send(ControlEvent::Stop);
+                drop(tx);
+            }
+            other => panic!("unknown script {}", other),
+        }
+        if !joined {
+            sh.violation(json!({"kind": "join-failed", "fen": fen, "script": script}));
+        }
+        let digest = events.join(";");
+        if deterministic {
+            let mut g = first_digest.lock().unwrap();
+            match &*g {
+                None => *g = Some(digest.clone()),
+                Some(d) if *d != digest => sh.violation(json!({"kind": "schedule-dependent-events", "fen": fen, "first": d, "other": digest})),
+                _ => {}
+            }
+        }
+        if script == "join" && has_move && !events.iter().any(|e| e.starts_with('B')) {
+            sh.violation(json!({"kind": "no-report", "fen": fen, "script": script}));
+        }
+        sh.outcome(digest);
+    })
+}
+
+// ---------------------------------------------------------------- harness: tt_linearizable (C15)
+
+#[derive(Clone, Copy, Debug, PartialEq, Eq)]
+enum Op {
+    Insert(u64, u8),
+    Find(u64),
+}
+
+fn entry_for(key: u64, v: u8) -> VerifEntry {
+    use weechess_core::{Color, Piece, Square};
+    VerifEntry {
+        kind: v % 3,
+        performed_move: Move::by_moving(
+            PieceIndex::new(Color::White, Piece::Knight),
+            Square::try_from((key % 64) as u8).unwrap(),
+            Square::try_from(((key / 7 + v as u64 * 5) % 64) as u8).unwrap(),
+        ),
+        depth: v as usize,
+        max_depth: v as usize + 1,
+        evaluation: v as i32 * 10 - 5,
+    }
+}
+
+fn apply(t: &VerifTable, op: Op) -> Option<VerifEntry> {
+    match op {
+        Op::Insert(k, v) => {
+            t.insert(k, entry_for(k, v));
+            None
+        }
+        Op::Find(k) => t.find(k),
+    }
+}
+
+fn h_tt_linearizable(args: &Args) -> Value {
+    let (tables, buckets) = (args.tables, args.buckets);
+    let m = (tables * buckets) as u64; // keys congruent mod m share table and bucket
+    // thread programs: colliding keys; variant selects the menu entry
+    let k = |i: u64| 1 + i * m * 2; // all in the same bucket of the same table
+    let other = 2u64; // a key elsewhere (when m > 1)
+    let programs: Vec<Vec<Vec<Op>>> = vec![
+        vec![vec![Op::Insert(k(0), 1), Op::Find(k(1))], vec![Op::Insert(k(1), 2), Op::Find(k(0))]],
+        vec![vec![Op::Insert(k(0), 1), Op::Insert(k(0), 2)], vec![Op::Find(k(0)), Op::Find(k(0))]],
+        vec![vec![Op::Insert(k(9), 1), Op::Find(k(0))], vec![Op::Insert(k(10), 2), Op::Find(k(1))]],
+        vec![vec![Op::Insert(k(0), 1)], vec![Op::Insert(k(1), 2)], vec![Op::Find(k(0)), Op::Find(k(1))]],
+        vec![vec![Op::Insert(k(9), 1), Op::Find(k(9))], vec![Op::Insert(k(10), 2), Op::Find(k(10))], vec![Op::Insert(other, 3), Op::Find(k(2))]],
+        vec![vec![Op::Insert(k(9), 1), Op::Insert(k(10), 1)], vec![Op::Insert(k(11), 2), Op::Find(k(9))]],
+    ];
+    let prog = programs[args.variant % programs.len()].clone();
+    // variants 2, 4, 5 start from a full bucket (8 keys) so that inserts displace
+    let prefill: Vec<u64> = if [2, 4, 5].contains(&(args.variant % programs.len())) { (0..8).map(k).collect() } else { vec![] };
+    let prog_json = json!(prog.iter().map(|t| t.iter().map(|o| format!("{:?}", o)).collect::<Vec<_>>()).collect::<Vec<_>>());
+    let prefill2 = prefill.clone();
+    let mut r = explore(args, move |sh| {
+        let table = loom::sync::Arc::new(VerifTable::new(tables, buckets));
+        for &key in &prefill {
+            table.insert(key, entry_for(key, 7));
+        }
+        let initial = table.deep_clone();
+        let clock = StdArc::new(AtomicU64::new(0));
+        // history: (thread, op, result, invoked, returned)
+        let hist: StdArc<StdMutex<Vec<(usize, Op, Option<VerifEntry>, u64, u64)>>> = StdArc::new(StdMutex::new(Vec::new()));
+        let mut handles = Vec::new();
+        for (ti, ops) in prog.iter().enumerate().skip(1) {
+            let (table, clock, hist, ops) = (table.clone(), clock.clone(), hist.clone(), ops.clone());
+            handles.push(verif_sync::thread::spawn(move || {
+                for op in ops {
+                    let t0 = clock.fetch_add(1, O::SeqCst);
+                    let r = apply(&table, op);
+                    let t1 = clock.fetch_add(1, O::SeqCst);
+                    hist.lock().unwrap().push((ti, op, r, t0, t1));
+                }
+            }));
+        }
+        for op in prog[0].clone() {
+            let t0 = clock.fetch_add(1, O::SeqCst);
+            let r = apply(&table, op);
+            let t1 = clock.fetch_add(1, O::SeqCst);
+            hist.lock().unwrap().push((0, op, r, t0, t1));
+        }
+        for h in handles {
+            h.join().unwrap();
+        }
+        let h = hist.lock().unwrap().clone();
+        // brute force: some order consistent with real time must reproduce all results
+        // and the final table contents
+        let n = h.len();
+        let final_slots = table.slots();
+        let mut order: Vec<usize> = Vec::new();
+        let mut used = vec![false; n];
+        fn rec(h: &[(usize, Op, Option<VerifEntry>, u64, u64)], order: &mut Vec<usize>, used: &mut Vec<bool>, initial: &VerifTable, final_slots: &Vec<Vec<Vec<Option<(u64, VerifEntry)>>>>) -> bool {
+            let n = h.len();
+            if order.len() == n {
+                let t = initial.deep_clone();
+                for &i in order.iter() {
+                    if apply(&t, h[i].1) != h[i].2 {
+                        return false;
+                    }
+                }
+                return t.slots() == *final_slots;
+            }
+            for i in 0..n {
+                if used[i] {
+                    continue;
+                }
+                // i may come next only if no unused op returned before i was invoked
+                if (0..n).any(|j| !used[j] && j != i && h[j].4 < h[i].3) {
+                    continue;
+                }
+                used[i] = true;
+                order.push(i);
+                if rec(h, order, used, initial, final_slots) {
+                    return true;
+                }
+                order.pop();
+                used[i] = false;
+            }
+            false
+        }
+        let ok = rec(&h, &mut order, &mut used, &initial, &final_slots);
+        if !ok {
+            sh.violation(json!({"kind": "not-linearizable", "history": h.iter().map(|x| format!("t{} {:?} -> {:?} [{}..{}]", x.0, x.1, x.2.map(|e| e.depth), x.3, x.4)).collect::<Vec<_>>()}));
+        }
+        if table.entries() != table.occupied_slots() || table.entries() > table.max_entries() {
+            sh.violation(json!({"kind": "entry-count-drift", "entries": table.entries(), "occupied": table.occupied_slots(), "capacity": table.max_entries()}));
+        }
+        // every find result must be an entry stored under exactly that key
+        for x in &h {
+            if let (Op::Find(key), Some(e)) = (x.1, x.2) {
+                let legit = (0..=9u8).any(|v| entry_for(key, v) == e);
+                if !legit {
+                    sh.violation(json!({"kind": "find-returned-foreign-entry", "key": key}));
+                }
+            }
+        }
+        let mut sorted = h.clone();
+        sorted.sort_by_key(|x| (x.0, x.3));
+        sh.outcome(sorted.iter().map(|x| format!("t{}{:?}={:?}", x.0, x.1, x.2.map(|e| e.depth))).collect::<Vec<_>>().join(";"));
+    });
+    r["program"] = prog_json;
+    r["prefilled_keys"] = json!(prefill2.len());
+    r
+}
+
+fn main() {
+    let args = parse_args();
+    let r = match args.harness.as_str() {
+        "workers_lines" => h_workers_lines(&args),
+        "workers_mate" => h_workers_mate(&args),
+        "workers_history" => h_workers_history(&args),
+        "analyze_protocol" => h_analyze_protocol(&args, false),
+        "analyze_deterministic" => h_analyze_protocol(&args, true),
+        "tt_linearizable" => h_tt_linearizable(&args),
+        other => {
+            eprintln!("unknown harness {}", other);
+            std::process::exit(2);
+        }
+    };
+    let _ = BTreeSet::<u8>::new();
+    println!("{}", r);
+}
